@@ -161,6 +161,28 @@ def run(ctx):
     re = prog.body(REACTOR + 'request_enabled')
     ctx.ob('R02.4', 'request_enabled|unblocks', bool(re.call_blocks(WORKER + 'unblock_request')), 'EnableRequest unblocks the request on the server side', re.loc())
 
+    # ---- R02.8 the scheduler sees every priority level of a ready queue
+    ctx.rule('R02.8', 'TaskQueue::iter_priority_sizes: an element taken from the queue iterator with next() (to compare it with the prefill priority) is re-emitted in the result on every path where it was Some (a swallowed level hides its ready tasks from create_task_batches and the solver)')
+    OPT_ = 'core::option::Option'
+    ips = prog.body(T + 'scheduler::taskqueue::TaskQueue::iter_priority_sizes')
+    nx_ = [bi for bi, t, c in ips.calls() if bi in ips.reachable() and (callee_decl(t) or c or '').endswith('Iterator::next')]
+    for nb_ in nx_:
+        dl = ips.term[nb_]['d'][0]
+        keys_ = sorted([k for k, d in scrutinees(ips, OPT_).items() if d['root'] == dl], key=len)
+        ctx.require(keys_, 'R02.8: result of next() is not matched in iter_priority_sizes')
+        rets_ = [(bi, st) for bi in ips.reachable() for st in ips.stmts(bi) if st['k'] == 'a' and st['p'] == [0, []] and bi in ips.reach_after(nb_)]
+        ctx.require(rets_, 'R02.8: no result built after next()')
+        for bi, st in rets_:
+            vs = variants_at(ips, OPT_, bi, keys_[0])
+            if vs is not None and 'Some' not in vs:
+                continue
+            srcs = set()
+            for pl in __import__('hqrules.core', fromlist=['rv_places']).rv_places(st['rv']):
+                srcs |= ips.derived_from(pl[0], through_mutation=False)
+            ctx.ob('R02.8', f'iter_priority_sizes|consumed element re-emitted|arm={"+".join(sorted(vs)) if vs else "any"}', dl in srcs,
+                   'the result built where next() may have returned Some derives from the consumed element', ips.loc(bi, st))
+    ctx.floor('R02.8', len(nx_), 1, 'next() on the queue iterator in iter_priority_sizes')
+
 
 def _only_missing_job(cj, m_, z):
     """paths from cancel_tasks to return that avoid set_cancel_state exist only via the `job not found` None arm."""
